@@ -168,3 +168,18 @@ Theorem C03_fresh_exact : forall c ts m o j r q e, safe_cfg c = true -> (0 < c_r
 Proof. exact fresh_machine_exact. Qed.
 
 End GeneralExact.
+
+(* the same over the standard view semantics of release/acquire (Shm/MachineGenSys.v: its runs make
+   exactly the machine's observations) *)
+From CB Require Import MachineGen MachineGenSys.
+
+Theorem C03_later_call_never_older_standard_semantics : forall c ts o1 j ret1 rec1 o2 ret2 rec2 o3,
+  safe_cfg c = true -> Forall real_token ts -> (Z.of_nat (gm_nrec (fst (std_run c ts))) < 32767)%Z ->
+  snd (std_run c ts) = o1 ++ ORet j ret1 rec1 :: o2 ++ ORet j ret2 rec2 :: o3 ->
+  (idx_of rec1 <= idx_of rec2)%nat.
+Proof.
+  intros c ts o1 j ret1 rec1 o2 ret2 rec2 o3 Hs Hts Hn E.
+  destruct (standard_system_is_the_machine c ts (safe_cfg_ok c Hs) Hts) as (Eo & _ & En).
+  rewrite Eo in E. rewrite En in Hn. destruct (m_run (m_init c) ts) as [m o] eqn:R. cbn [fst snd] in *.
+  exact (C03_later_call_never_older c ts m o o1 j ret1 rec1 o2 ret2 rec2 o3 Hs Hts R Hn E).
+Qed.
